@@ -14,6 +14,9 @@ pub enum Family {
     /// byte mode: valid UTF-8 text made of 2-, 3- and 4-byte characters, padded with ASCII to the exact byte
     /// length (character count < byte count); the other modes: same as Ctr
     Utf8,
+    /// mostly the minimum symbol (0x00 / '0') with a different symbol at every 13th position: blocks that begin with
+    /// zero codewords, runs of 8 and more zeros followed by non-zero codewords, non-zero tails
+    Sparse,
     Seeded(u64),
 }
 
@@ -25,6 +28,7 @@ impl Family {
             Family::Hi => "hi".into(),
             Family::Pad => "pad".into(),
             Family::Utf8 => "utf8".into(),
+            Family::Sparse => "sparse".into(),
             Family::Seeded(s) => format!("seeded({})", s),
         }
     }
@@ -47,6 +51,16 @@ pub fn content(f: Family, m: usize, len: usize) -> Vec<u8> {
                 0 => [b'2', b'3', b'6', b'1', b'7'][i % 5], // digits of 236,17
                 1 => [b'E', b'C', b'1', b'1'][i % 4],
                 _ => [0xEC, 0x11][i % 2],
+            })
+            .collect(),
+        Family::Sparse => (0..len)
+            .map(|i| {
+                let hit = i % 13 == 5;
+                match m {
+                    0 => if hit { b'7' } else { b'0' },
+                    1 => if hit { b'Z' } else { b'0' },
+                    _ => if hit { ((i * 7) % 255 + 1) as u8 } else { 0 },
+                }
             })
             .collect(),
         Family::Utf8 => {
@@ -585,7 +599,7 @@ pub fn s_order(thorough: bool) -> Space {
                 }
                 tuples.push(Opts { mode: Some(fm as u8), ecl: None, version: None, mask: None, order: 0 });
                 for t in tuples {
-                    for order in 0..24u8 {
+                    for order in 0..48u8 {
                         cases.push(Case::new(p.clone(), Opts { order, ..t }));
                     }
                 }
@@ -594,7 +608,7 @@ pub fn s_order(thorough: bool) -> Space {
     }
     Space {
         name: "S_order".into(),
-        describe: "all 24 orders of the setter calls (mode, ecl, version, mask) x 5 payloads x forced modes at least as wide as the content x levels {L, Q, H} x versions {auto, smallest for the content's own class, smallest for the forced mode, one more} x mask {auto, 5}".into(),
+        describe: "all 24 orders of the setter calls (mode, ecl, version, mask), each also preceded by calls of the same setters with other values (last value wins), x 5 payloads x forced modes at least as wide as the content x levels {L, Q, H} x versions {auto, smallest for the content's own class, smallest for the forced mode, one more} x mask {auto, 5}".into(),
         cases,
         exhaustive: true,
     }
@@ -619,7 +633,7 @@ pub fn s_cap_families(thorough: bool) -> Space {
     let mut cases = vec![];
     for v in 1..=40usize {
         for e in 0..4usize {
-            for f in [Family::Ctr, Family::Lo, Family::Hi, Family::Pad] {
+            for f in [Family::Ctr, Family::Lo, Family::Hi, Family::Pad, Family::Sparse] {
                 for m in 0..3usize {
                     if !thorough && m != 2 && !(v <= 10 || v % 5 == 0) {
                         continue;
@@ -638,9 +652,9 @@ pub fn s_cap_families(thorough: bool) -> Space {
     Space {
         name: "S_cap_families".into(),
         describe: if thorough {
-            "all 160 (version, level) x {ctr, all-minimum, all-maximum, pad look-alike} x 3 modes at capacity, half capacity and length 1 (extreme dark ratios, long runs, zero runs followed by pad codewords)".into()
+            "all 160 (version, level) x {ctr, all-minimum, all-maximum, pad look-alike, sparse} x 3 modes at capacity, half capacity and length 1 (extreme dark ratios, long runs, zero runs followed by pad codewords)".into()
         } else {
-            "all 160 (version, level) x {ctr, all-minimum, all-maximum, pad look-alike} in byte mode (all 3 modes for v<=10 and v divisible by 5) at capacity, half capacity and length 1".into()
+            "all 160 (version, level) x {ctr, all-minimum, all-maximum, pad look-alike, sparse} in byte mode (all 3 modes for v<=10 and v divisible by 5) at capacity, half capacity and length 1".into()
         },
         cases,
         exhaustive: true,
